@@ -1,8 +1,9 @@
-//go:build verif
+//go:build verif && go1.18
 
 package fit
 
 import (
+	"reflect"
 	"encoding/binary"
 
 	"github.com/tormoder/fit/internal/types"
@@ -70,8 +71,8 @@ func H01a() {
 	// that options never change results is C16's subject.
 	d.opts.unknownFields = true
 	d.opts.unknownMessages = true
-	d.unknownFields = make(map[unknownField]int)
-	d.unknownMessages = make(map[MesgNum]int)
+	vMakeMap(&d.unknownFields)
+	vMakeMap(&d.unknownMessages)
 	fd := fieldDef{num: vByte(), size: vByte(), btype: types.Base(vByte())}
 	if err := d.validateFieldDef(gmn, fd); err != nil {
 		vReached("rejected")
@@ -113,8 +114,36 @@ func H01a() {
 		vAssert(msg.IsValid() == knownMsgNums[gmn], "C01.field.msg-valid-iff-known")
 		vAssert(d.bytes.n == int(fd.size), "C01.field.consumed-size")
 		vReached("decoded")
+		if msg.IsValid() {
+			// what decodeFileData does next: the message is handed to the
+			// File, which routes it and expands its components. Every
+			// file type that hosts the message, and the activity file.
+			for ti := range vFileTypes {
+				f, _ := NewFile(FileType(vFileTypes[ti]), NewHeader(V20, true))
+				if ti == 3 || vHosts(f, ti, msg.Type()) {
+					f.add(msg)
+				}
+			}
+			vReached("routed")
+		}
 	}
 	vReached("end")
+}
+
+// vHosts: the container of file type index ti has a slot (*T or []*T) for
+// message type mt.
+func vHosts(f *File, ti int, mt reflect.Type) bool {
+	cont := vContainer(f, ti)
+	for i := 0; i < cont.NumField(); i++ {
+		ft := cont.Field(i).Type()
+		if ft.Kind() == reflect.Ptr && ft.Elem() == mt {
+			return true
+		}
+		if ft.Kind() == reflect.Slice && ft.Elem().Kind() == reflect.Ptr && ft.Elem().Elem() == mt {
+			return true
+		}
+	}
+	return false
 }
 
 // vStringArrayData prepares the data of a string-array definition. The
